@@ -19,8 +19,8 @@ type multiCase struct {
 	// MidEnv: the environment from declaration number MidAt on (nil = it does not change while the program declares)
 	MidEnv *EnvState
 	MidAt  int
-	Cli  map[*Decl][]string
-	Spec string
+	Cli    map[*Decl][]string
+	Spec   string
 }
 
 func (c *multiCase) Describe() interface{} {
@@ -284,8 +284,10 @@ func genMultiOpt(t *Tape, yieldProbe bool) *multiCase {
 			sel = 3 + sel%3
 		}
 		switch sel {
-		case 0, 1, 2:
+		case 0, 1:
 			tail = []string{"xval"}
+		case 2:
+			tail = []string{[]string{"true", "false", "xval"}[len(argv)%3]} // a word that a flag in front of it must not take
 		case 3:
 			tail = []string{"--", "xval"}
 		case 4:
